@@ -125,6 +125,7 @@ func (c14) Plan(tier string) []core.Segment {
 		{Gen: "lines", Profile: "lf", Count: scale(tier, 600_000, 8_000_000)},
 		{Gen: "limits", Profile: "default", Count: scale(tier, 12_000, 300_000), Desc: "documents on numeric thresholds (labels of 999 characters with line endings inside, 8 KiB read window, ...)"},
 		{Gen: "defsplit", Profile: "default", Count: scale(tier, 150_000, 4_000_000), Desc: "definition-like paragraphs cut into lines at every place, inside containers with space/tab/partly consumed tab prefixes and hostile bytes right after the prefix"},
+		{Gen: "inlinex", Profile: "default", Count: scale(tier, 150_000, 4_000_000), Desc: "well-formed inline trees whose delimiter tokens were deleted, duplicated, moved, swapped or respelled: constructs crossing each other's boundaries"},
 		{Gen: "modeldoc", Profile: "full", Count: scale(tier, 100_000, 3_000_000), Desc: "Markdown of model documents: nested containers, structural tabs, laziness, multi-line inline constructs"},
 		{Gen: "modeldoc", Profile: "deep", Count: scale(tier, 10_000, 300_000), Desc: "Markdown of model documents: nested containers, structural tabs, laziness, multi-line inline constructs", Batch: 2000},
 		{Gen: "soup", Profile: "default", Count: scale(tier, 450_000, 6_000_000)},
@@ -312,6 +313,7 @@ func (c16) Plan(tier string) []core.Segment {
 		{Gen: "lines", Profile: "default", Count: scale(tier, 750_000, 10_000_000)},
 		{Gen: "limits", Profile: "default", Count: scale(tier, 12_000, 300_000), Desc: "documents on numeric thresholds"},
 		{Gen: "defsplit", Profile: "default", Count: scale(tier, 150_000, 4_000_000), Desc: "definition-like paragraphs cut into lines at every place, inside containers with space/tab/partly consumed tab prefixes and hostile bytes right after the prefix"},
+		{Gen: "inlinex", Profile: "default", Count: scale(tier, 150_000, 4_000_000), Desc: "well-formed inline trees whose delimiter tokens were deleted, duplicated, moved, swapped or respelled: constructs crossing each other's boundaries"},
 		{Gen: "modeldoc", Profile: "full", Count: scale(tier, 100_000, 3_000_000), Desc: "Markdown of model documents: nested containers, structural tabs, laziness, multi-line inline constructs"},
 		{Gen: "modeldoc", Profile: "deep", Count: scale(tier, 10_000, 300_000), Desc: "Markdown of model documents: nested containers, structural tabs, laziness, multi-line inline constructs", Batch: 2000},
 		{Gen: "lines", Profile: "hostile", Count: scale(tier, 150_000, 2_000_000)},
@@ -406,6 +408,7 @@ func (c09) Plan(tier string) []core.Segment {
 		{Gen: "lines", Profile: "tabfree", Count: scale(tier, 750_000, 10_000_000)},
 		{Gen: "limits", Profile: "tabfree", Count: scale(tier, 12_000, 300_000), Desc: "documents on numeric thresholds"},
 		{Gen: "defsplit", Profile: "tabfree", Count: scale(tier, 150_000, 4_000_000), Desc: "definition-like paragraphs cut into lines at every place, inside containers with space/tab/partly consumed tab prefixes and hostile bytes right after the prefix"},
+		{Gen: "inlinex", Profile: "tabfree", Count: scale(tier, 150_000, 4_000_000), Desc: "well-formed inline trees whose delimiter tokens were deleted, duplicated, moved, swapped or respelled: constructs crossing each other's boundaries"},
 		{Gen: "modeldoc", Profile: "full", Count: scale(tier, 100_000, 3_000_000), Desc: "Markdown of model documents: nested containers, structural tabs, laziness, multi-line inline constructs"},
 		{Gen: "modeldoc", Profile: "deep", Count: scale(tier, 10_000, 300_000), Desc: "Markdown of model documents: nested containers, structural tabs, laziness, multi-line inline constructs", Batch: 2000},
 		{Gen: "soup", Profile: "tabfree", Count: scale(tier, 600_000, 8_000_000)},
